@@ -1221,7 +1221,7 @@ func main() {
 		for _, pv := range []struct {
 			p *profile
 			n int
-		}{{&pMixed, e.Scale(260, 3000)}, {&pLru, e.Scale(140, 1500)}, {&pExpiry, e.Scale(160, 2000)}, {&pOdd, e.Scale(60, 600)}} {
+		}{{&pMixed, e.Scale(400, 3000)}, {&pLru, e.Scale(200, 1500)}, {&pExpiry, e.Scale(250, 2000)}, {&pOdd, e.Scale(80, 600)}} {
 			if !want(pv.p.class) {
 				continue
 			}
@@ -1231,7 +1231,7 @@ func main() {
 			}
 		}
 		if want("mem-race") {
-			for i := 0; i < e.Scale(60, 800)*mult; i++ {
+			for i := 0; i < e.Scale(80, 800)*mult; i++ {
 				if e.Search {
 					emitIsolated(e, raceHistory(e)) // a lost critical section kills the process: one child per history
 				} else {
@@ -1240,7 +1240,7 @@ func main() {
 			}
 		}
 		if want("rds-race") {
-			for i := 0; i < e.Scale(50, 600)*mult; i++ {
+			for i := 0; i < e.Scale(60, 600)*mult; i++ {
 				emit(rdsRaceHistory(e))
 			}
 		}
@@ -1255,7 +1255,7 @@ func main() {
 		for _, pv := range []struct {
 			p *profile
 			n int
-		}{{&pRdsRestricted, e.Scale(200, 2500)}, {&pRdsFree, e.Scale(100, 1000)}} {
+		}{{&pRdsRestricted, e.Scale(300, 2500)}, {&pRdsFree, e.Scale(120, 1000)}} {
 			if !want(pv.p.class) {
 				continue
 			}
